@@ -1,6 +1,6 @@
 # Builds the simulation engines from /repo's current working tree. Variants: asan (default), noexc, noguard, plain, tsi.
 REPO ?= /repo
-B := build
+B ?= build
 CXX := g++
 DEFS := -DCPPUTEST_HAVE_FORK -DCPPUTEST_HAVE_WAITPID -DCPPUTEST_HAVE_KILL -DCPPUTEST_HAVE_PTHREAD_MUTEX_LOCK -DCPPUTEST_HAVE_GETTIMEOFDAY -DCPPUTEST_USE_LONG_LONG=1 -DCPPUTEST_HAVE_STRDUP
 INC := -I$(REPO)/include -I.
@@ -10,6 +10,7 @@ FLAGS_asan := $(BASE) $(SAN)
 FLAGS_noexc := $(BASE) $(SAN) -fno-exceptions
 FLAGS_noguard := $(BASE) $(SAN) -DCPPUTEST_DISABLE_MEM_CORRUPTION_CHECK
 FLAGS_plain := $(BASE)
+FLAGS_tsi := $(BASE)
 
 REPO_SRCS := $(wildcard $(REPO)/src/CppUTest/*.cpp) $(wildcard $(REPO)/src/CppUTestExt/Mock*.cpp) $(REPO)/src/Platforms/Gcc/UtestPlatform.cpp
 repo_objs = $(patsubst $(REPO)/src/%.cpp,$(B)/$(1)/repo/%.o,$(REPO_SRCS))
@@ -18,7 +19,8 @@ ENGINES_asan := runsim heapsim cachesim mocksim
 ENGINES_noexc := runsim
 ENGINES_noguard := heapsim
 ENGINES_plain := runsim
-ALL := $(foreach v,asan noexc noguard plain,$(foreach e,$(ENGINES_$(v)),$(B)/$(v)/$(e)))
+ENGINES_tsi := thrsim
+ALL := $(foreach v,asan noexc noguard plain tsi,$(foreach e,$(ENGINES_$(v)),$(B)/$(v)/$(e)))
 
 all: $(ALL)
 
@@ -30,7 +32,10 @@ $(B)/$(1)/verif/%.o: %.cpp
 	@mkdir -p $$(dir $$@)
 	$(CXX) $$(FLAGS_$(1)) -c $$< -o $$@
 endef
-$(foreach v,asan noexc noguard plain,$(eval $(call VARIANT_RULES,$(v))))
+$(foreach v,asan noexc noguard plain tsi,$(eval $(call VARIANT_RULES,$(v))))
+# the four translation units that hold the detector's shared state are instrumented: every load/store becomes a yield point
+TSI_UNITS := MemoryLeakDetector MemoryLeakWarningPlugin TestMemoryAllocator SimpleMutex
+$(foreach u,$(TSI_UNITS),$(eval $(B)/tsi/repo/CppUTest/$(u).o: FLAGS_tsi := $(BASE) -fsanitize=thread))
 
 RUNSIM_SRCS := runsim/main.cpp runsim/gen.cpp runsim/exec.cpp runsim/oracle.cpp core/asanopts.cpp
 define RUNSIM_RULE
@@ -53,6 +58,10 @@ $(B)/asan/cachesim: $(patsubst %.cpp,$(B)/asan/verif/%.o,$(CACHESIM_SRCS)) $(cal
 MOCKSIM_SRCS := mocksim/mocksim.cpp core/asanopts.cpp
 $(B)/asan/mocksim: $(patsubst %.cpp,$(B)/asan/verif/%.o,$(MOCKSIM_SRCS)) $(call repo_objs,asan)
 	$(CXX) $(FLAGS_asan) $^ -o $@ -lpthread
+
+THRSIM_SRCS := thrsim/thrsim.cpp
+$(B)/tsi/thrsim: $(patsubst %.cpp,$(B)/tsi/verif/%.o,$(THRSIM_SRCS)) $(call repo_objs,tsi)
+	$(CXX) $(FLAGS_tsi) $^ -o $@ -lpthread
 
 clean:
 	rm -rf $(B)
